@@ -91,6 +91,19 @@ pub fn convert(map: &mut Beatmap) {
                         i = (i + 1) % edge_sound_count;
                     }
 
+                    #[cfg(rosu_pp_verif)]
+                    crate::verif::trace::emit(|| {
+                        let times: Vec<String> = new_objects
+                            .iter()
+                            .map(|h| format!("{:?}", h.start_time))
+                            .collect();
+
+                        format!(
+                            r#"{{"g":"taiko_burst","idx":{idx},"times":[{}]}}"#,
+                            times.join(",")
+                        )
+                    });
+
                     if let Some(len) = new_objects.len().checked_sub(1) {
                         map.hit_objects.splice(idx..=idx, new_objects.drain(..));
                         map.hit_sounds.splice(idx..=idx, new_sounds.drain(..));
